@@ -176,9 +176,9 @@ static void gen_c09(uint64_t seed, uint64_t run, const std::string& tier, Plan& 
   p.prop = "C09"; p.seed = seed; p.run = run; p.tier = tier;
   p.knobs["envseed"] = (int64_t)(mix64(rs ^ 0x77) >> 1);
   // enumeration: run index walks the length grid 0..160; the seed only picks contents
-  size_t n = (size_t)(run % 161);
+  size_t n = (size_t)(run % (tier == "thorough" ? 321 : 161));   // thorough: up to 10 AVX2 blocks
   { p.ops.emplace_back(); Op& op = p.ops.back(); op.kind = "Quote"; op.a = {(int64_t)n, -1, (int64_t)(r.next() >> 1), -1}; }
-  if (n && n <= 70) { p.ops.emplace_back(); Op& op = p.ops.back(); op.kind = "Quote"; op.a = {(int64_t)n, -1, (int64_t)(r.next() >> 1), (int64_t)((run / 161) % n)}; }
+  if (n && n <= 70) { p.ops.emplace_back(); Op& op = p.ops.back(); op.kind = "Quote"; op.a = {(int64_t)n, -1, (int64_t)(r.next() >> 1), (int64_t)((run / (tier == "thorough" ? 321 : 161)) % n)}; }
   for (int k = 0; k < 2; k++) { p.ops.emplace_back(); Op& op = p.ops.back(); op.kind = "SerializeStr"; op.a = {(int64_t)r.below(16), (int64_t)(r.next() >> 1), (int64_t)r.below(4), (int64_t)r.below(64)}; }
 }
 
@@ -221,7 +221,8 @@ static void exec_c14(const Plan& p, Outcome& out) {
         std::string base; fill_content(base, n, cseed, 1);
         // mismatch positions: none, first, last, around vector boundaries, a few random
         std::vector<long> mm = {-1};
-        if (n) { mm.push_back(0); mm.push_back((long)n - 1); for (long q : {15L, 16L, 17L, 31L, 32L, 33L, 63L, 64L, 65L}) if (q < (long)n) mm.push_back(q); Rng r(cseed); for (int k = 0; k < 3; k++) mm.push_back((long)r.below(n)); }
+        if (n && n <= 40) { for (long q = 0; q < (long)n; q++) mm.push_back(q); }   // short operands: every mismatch position
+        else if (n) { mm.push_back(0); mm.push_back((long)n - 1); for (long q : {15L, 16L, 17L, 31L, 32L, 33L, 63L, 64L, 65L, 95L, 96L, 97L, 127L, 128L}) if (q < (long)n) mm.push_back(q); Rng r(cseed); for (int k = 0; k < 6; k++) mm.push_back((long)r.below(n)); }
         for (size_t da : D) {
           if (da_only >= 0 && (size_t)da_only != da) continue;
           CBuf A; A.init(std::string(n + da, '.').data(), n + da, simmem::PL_END);
@@ -268,7 +269,7 @@ static void exec_c14(const Plan& p, Outcome& out) {
         Rng r(cseed);
         for (size_t k = 0; k < K; k++) {
           std::string s = stem;
-          if (L) { size_t pos = k == 0 ? L - 1 : (k == 1 ? 0 : r.below(L)); s[pos] = (char)('A' + k); }
+          if (L) { size_t pos = k == 0 ? L - 1 : (k == 1 ? 0 : (k == 2 ? L / 2 : r.below(L))); s[pos] = (char)('A' + k); }
           else if (k) break;
           bool dup = false; for (auto& e : keys) if (e == s) dup = true;
           if (!dup) keys.push_back(s);
@@ -322,7 +323,7 @@ static void gen_c14(uint64_t seed, uint64_t run, const std::string& tier, Plan& 
   Rng r(rs);
   p.prop = "C14"; p.seed = seed; p.run = run; p.tier = tier;
   p.knobs["envseed"] = (int64_t)(mix64(rs ^ 0x77) >> 1);
-  size_t n = (size_t)(run % 131);
+  size_t n = (size_t)(run % (tier == "thorough" ? 261 : 131));
   { p.ops.emplace_back(); Op& op = p.ops.back(); op.kind = "Memcmp"; op.a = {(int64_t)n, (int64_t)(r.next() >> 1), -1, -1}; }
   for (int k = 0; k < 2; k++) { p.ops.emplace_back(); Op& op = p.ops.back(); op.kind = "KeyLookup"; op.a = {(int64_t)(k == 0 ? n : r.below(131)), (int64_t)(r.next() >> 1), (int64_t)r.below(7), (int64_t)k}; }
 }
